@@ -1,6 +1,7 @@
 (** C19 — Repeating iteration cycles through the whole split forever.
     Property theorems only; each is closed by [exact] of a lemma proved in Proofs/. *)
 Require Import Sedpack.Model.Base Sedpack.Generated.GenIter Sedpack.Model.Iter Sedpack.Proofs.IterProofs Sedpack.Proofs.ChainProofs Sedpack.Proofs.CycleChain.
+Require Import Sedpack.Generated.GenRegistry Sedpack.Model.Registry Sedpack.Proofs.RegistryProofs.
 From Coq Require Import Permutation.
 
 (** Unshuffled: the repeating path stream is periodic — its k-th element is the (k mod N)-th
@@ -34,6 +35,46 @@ Theorem c19_sync_reader_periodic :
   chain_nth path ex read l dp k s0 = Some (nth (k mod length (concat (map read l))) (concat (map read l)) de).
 Proof. exact chain_cycle_periodic. Qed.
 Print Assumptions c19_sync_reader_periodic.
+
+(** The Rust interface: any number of generators (train / validation / ...) share the registry of live Rust iterators and are
+    advanced in ANY interleaving, some dropped early.  If the keys drawn for the registry never repeat, generator i receives
+    complete passes of its own followed by a prefix of its current pass — never an example of another stream, never a panic. *)
+Theorem c19_rust_streams_isolated :
+  forall (ex : Type) (idgen : nat -> nat), (forall a b, idgen a = idgen b -> a = b) ->
+  forall (passes : nat -> nat -> list ex) (rep : nat -> bool) (ops : list op) (i : nat),
+    let rs := snd (run idgen (init passes rep) ops) in
+    (exists n k, stream i ops rs = concat (map (passes i) (seq 0 n)) ++ firstn k (passes i n)) /\ ~ In (Some Panic) rs.
+Proof. exact @streams_isolated. Qed.
+Print Assumptions c19_rust_streams_isolated.
+
+(** ... hence, unshuffled (every pass the same sequence l), position m of the stream is element m mod |l| of l, for every m. *)
+Theorem c19_rust_stream_periodic :
+  forall (ex : Type) (idgen : nat -> nat), (forall a b, idgen a = idgen b -> a = b) ->
+  forall (passes : nat -> nat -> list ex) (rep : nat -> bool) (ops : list op) (i : nat) (l : list ex), (forall n, passes i n = l) ->
+  forall m e, nth_error (stream i ops (snd (run idgen (init passes rep) ops))) m = Some e -> nth_error l (m mod length l) = Some e.
+Proof. exact @stream_periodic. Qed.
+Print Assumptions c19_rust_stream_periodic.
+
+(** It never ends and never stalls: with non-empty passes every further request to generator i is answered with an example, unless
+    the consumer dropped i, or i is not repeating and has received exactly its one pass. *)
+Theorem c19_rust_streams_live :
+  forall (ex : Type) (idgen : nat -> nat), (forall a b, idgen a = idgen b -> a = b) ->
+  forall (passes : nat -> nat -> list ex) (rep : nat -> bool) (ops : list op) (i : nat), (forall i n, passes i n <> []) ->
+    let w := fst (run idgen (init passes rep) ops) in
+    let rs := snd (run idgen (init passes rep) ops) in
+    match snd (pull idgen FUEL w i) with
+    | Yield _ => True
+    | Stop => dropped i ops = true \/ (rep i = false /\ stream i ops rs = passes i 0)
+    | _ => False
+    end.
+Proof. exact @streams_live. Qed.
+Print Assumptions c19_rust_streams_live.
+
+(** The hypothesis on the keys is needed: with a key that repeats (here: always 7) the first stream receives the second one's example. *)
+Theorem c19_rust_key_reuse_breaks_isolation :
+  stream 0 [Pull 0; Pull 1; Pull 0] (snd (run (fun _ => 7) (init (fun i _ => if i =? 0 then [1; 2; 3] else [10; 20]) (fun _ => true)) [Pull 0; Pull 1; Pull 0])) = [1; 20].
+Proof. vm_compute. reflexivity. Qed.
+Print Assumptions c19_rust_key_reuse_breaks_isolation.
 
 Theorem c19_nonvacuous :
   let st := sb_run (cycle_source [1; 2; 3] 0) (lcg_pick 5) (@rev nat) 2 100 (sb_init (cycle_source [1; 2; 3] 0) 0) in
